@@ -85,7 +85,7 @@ var clauseKinds = map[string]bool{
 	"loop": true, "lemma": true, "ghost": true, "panics-when": true, "search-pred": true,
 	"replay": true, "replay-reader": true, "returns": true, "callsite": true, "search": true, "reveal": true, "frame-only": true, "trusted": true, "assume": true, "unroll": true, "inline": true,
 	"reads": true, "pure": true, "let": true, "assert": true, "nosafety": true,
-	"crash-invariant": true, "frame": true, "closure": true, "bound": true, "final": true, "loop-candidates": true, "dynamic": true,
+	"crash-invariant": true, "frame": true, "closure": true, "bound": true, "final": true, "loop-candidates": true, "dynamic": true, "sorted": true,
 }
 
 var tagRe = regexp.MustCompile(`^\[([A-Z0-9, ]+)\]\s*`)
@@ -235,6 +235,24 @@ func parseContractFile(db *ContractDB, path string, defaultPkg string) error {
 				r = r[len(m[0]):]
 			}
 			cl.Text = r
+		case "sorted":
+			// sorted N: a, b => less(a, b)   (the less function of the N-th sort.Slice call, as a spec formula in two positions)
+			i := strings.Index(rest, ":")
+			k := strings.Index(rest, "=>")
+			if i < 0 || k < i {
+				return fmt.Errorf("%s:%d: sorted N: a, b => less", path, ln)
+			}
+			n, err := strconv.Atoi(strings.TrimSpace(rest[:i]))
+			if err != nil {
+				return fmt.Errorf("%s:%d: sorted N: a, b => less", path, ln)
+			}
+			cl.Loop = 0
+			cl.Index = n
+			cl.Name = strings.TrimSpace(rest[i+1 : k])
+			cl.Text = strings.TrimSpace(rest[k+2:])
+			cur.Clauses = append(cur.Clauses, cl)
+			last = cl
+			continue
 		case "search":
 			// search N: j => pred(j)    (the predicate of the N-th sort.Search call, as a spec formula in j)
 			i := strings.Index(rest, ":")
